@@ -734,6 +734,3 @@ class SeqMixin:
             return fn(a, b)
         return SArr(A.h, A.w, elem, kind)
 
-    # ------------------------------------------------------------------ loops
-    def symbolic_for(self, node, it, env):
-        raise Unsupported('loop over a symbolic sequence without invariant')
